@@ -24,7 +24,7 @@ from mdsim.seams import mem as smem
 PROP = "C11"
 LEVEL = "fault_enumeration"
 TECHNIQUE = "deterministic simulation with fault injection at the storage seam (crash/torn/lost writes, truncation, corruption, foreign files, I/O errors) + cache reference model"
-RUNS = {"quick": 6, "thorough": 40}  # number of request configurations
+RUNS = {"quick": 6, "thorough": 14}  # number of request configurations (thorough: every byte of each is truncated and flipped)
 JOB_TIMEOUT = 900.0
 CHUNK = {"quick": 36, "thorough": 120}
 OPTIMIZE_SLOTS = {"quick": [2], "thorough": [2]}  # every third configuration is served by an interpreter running under `python -O`
@@ -715,8 +715,6 @@ def scenarios_for(rng: random.Random, R: dict, layout: dict, tier: str) -> list:
     if tier == "thorough":
         for b in range(size):
             sc.append({"kind": "flip", "at": b, "mask": rng.choice([0x01, 0x80, 0xFF, rng.randrange(1, 256)])})
-        for b in range(0, size, 7):
-            sc.append({"kind": "flip", "at": b, "mask": rng.choice([0x01, 0x80, 0xFF])})
     else:
         stride = max(1, size // 55)
         offs = sorted(set(range(rng.randrange(stride), size, stride)) | set(layout["bounds"]))
@@ -766,7 +764,7 @@ def scenarios_for(rng: random.Random, R: dict, layout: dict, tier: str) -> list:
     if R.get("applied_filters"):
         sc += [{"kind": "shared-dir", "field": "n_mazes-survivors", "cfg": None, "same_process": sp} for sp in (False, True)]
     # multi-fault histories
-    for _ in range(7 if tier == "quick" else 60):
+    for _ in range(7 if tier == "quick" else 40):
         steps = []
         for _ in range(rng.randint(1, 4)):
             r = rng.random()
